@@ -45,6 +45,8 @@ def field(v, n):
     op = v.op
     if op == "boxptr":
         return v
+    if op == "fp_to_repr" and n == 0:
+        return v          # FpRepr is a newtype around its bytes: `.0` designates the same 24-byte encoding
     if op == "oneof":
         return mk("oneof", *[field(x, n) for x in v.args])
     if op == "agg":
@@ -92,6 +94,11 @@ def index(v, i):
         return v.args[1 + ci]
     if v.op == "from_elem":
         return v.args[0]
+    if v.op == "from_fn":
+        if ci is not None:
+            from .query import substitute
+            return substitute(v.args[1], v.args[2], Int(ci, "usize"))       # element k = f(k)
+        return mk("index", v, i)
     if v.op == "inserted" and ci is not None and is_t(v.args[1]) and v.args[1].op == "int":
         at = v.args[1].args[0]
         if ci == at:
@@ -627,11 +634,18 @@ class Engine:
                 if tb == otherwise:
                     continue
                 if len(vs) == 1:
-                    edge_facts[(b, tb)] = (d, "eq", vs[0])
+                    edge_facts.setdefault((b, tb), []).append((d, "eq", vs[0]))
                 else:
-                    edge_facts[(b, tb)] = (d, "in", tuple(vs))
+                    edge_facts.setdefault((b, tb), []).append((d, "in", tuple(vs)))
             if otherwise not in tv:
-                edge_facts[(b, otherwise)] = (d, "notin", allvals)
+                edge_facts.setdefault((b, otherwise), []).append((d, "notin", allvals))
+        # facts that hold once a call has returned normally (unwrap / expect returned => the value was the success variant)
+        for b in cfg.rpo:
+            ev = self.events.get((frame.key, b, "t"))
+            if ev and ev.get("kind") == "call" and ev.get("post_facts"):
+                tgt = fn.blocks[b]["t"].get("target")
+                if tgt is not None and tgt >= 0:
+                    edge_facts.setdefault((b, tgt), []).extend(ev["post_facts"])
         # control conditions of merge blocks: switches between idom(b) and b
         idom = cfg.idom()
         for b in cfg.rpo:
@@ -651,9 +665,9 @@ class Engine:
             if b not in in_states:
                 continue
             facts = set()
-            for (a, s), f in edge_facts.items():
+            for (a, s), fl in edge_facts.items():
                 if cfg.edge_dominates(a, s, b):
-                    facts.add(f)
+                    facts.update(fl)
             self.block_facts[(frame.key, b)] = frozenset(facts)
 
     def facts_at(self, frame_key, block):
@@ -788,9 +802,8 @@ class Engine:
         n = 0
         while frame.parent is not None and n < 32:
             nm = frame.fn.name
-            base = nm.split("::{closure")[0]
-            if not known or nm in known or base in known:
-                break
+            if not known or nm in known:
+                break          # (a closure that did not exist on the reference tree is part of its enclosing function)
             frame, b = frame.parent, frame.call_block
             n += 1
         return frame.key, b, frame.fn.name
@@ -977,6 +990,8 @@ class Engine:
             return Int(len(v.args) - 1)
         if op == "from_elem":
             return v.args[1]
+        if op == "from_fn":
+            return v.args[0]
         if op == "slice":
             # slice(base, lo, hi)
             return binop("Sub", v.args[2], v.args[1], "usize")
@@ -1150,7 +1165,8 @@ class Engine:
               "callee": call.get("callee_name"), "dname": call.get("dname"), "args": args, "argv": argv, "result": res,
               "pre": call.get("pre"), "alloc_size": call.get("alloc_size"), "strobe_more": call.get("strobe_more"),
               "substs": call.get("substs"), "inlined": call.get("inlined", False), "model": call.get("model"),
-              "local": call.get("local", False), "tc": call.get("tc", False), "diverges": t["target"] < 0}
+              "local": call.get("local", False), "tc": call.get("tc", False), "diverges": t["target"] < 0,
+              "post_facts": call.get("post_facts")}
         ev["home"], ev["home_block"], ev["home_fn"] = self.home_of(frame, b)
         self.events[(frame.key, b, "t")] = ev
         self.cur = (frame, b)
